@@ -1,2 +1,2 @@
-//! The sync primitives the tower is built with (std, or the instrumented shim when the hook exists).
-pub use std::sync::{Condvar, Mutex};
+//! The sync primitives the tower is built with: the instrumented shim (feature `verif`).
+pub use teos::verif::sync::{Condvar, Mutex};
